@@ -19,20 +19,22 @@ THEOREMS = [
     "C36_seqnums_to_indices", "C36_last_cover_spec", "C36_seqnums_rows",
 ]
 COQ_IMPORTS = "From BV Require Import Pure.Chunks."
+PARALLEL = False     # importing bluesky+tiled in 16 workers costs more than the 4 us/case it saves
 MODELLED = ("concatenate_stream_datums, ConsolidatorBase.__init__/shape/chunks(list_summands)/consume_stream_datum and "
             "the CSV/HDF5/TIFF/JPEG/NPY subclasses + consolidator_factory are hand-modelled in Pure/Chunks.v "
             "(Python sorted() as a stable insertion sort, dict as a key-sorted association list, // and % as "
             "Z.div/Z.modulo, exceptions as a 5-value enum). Trusted/not modelled: numpy dtype handling, file-name "
             "templates (only the number of assets is modelled; names are C37/C45), join_method values other than "
             "'stack'/'concat', non-integer parameters.")
-RULE = ("corpus; exhaustive: all datum lists of <=3 intervals over coordinates 0..3 (quick: len-3 lists only with "
-        "start<=stop) + all descriptor/resource patterns on permuted chains; all class kinds x join_method override x "
-        "join_chunks override x chunk_shape lengths 0..3 x multiplier {none,1,3} x 6 descriptor shapes with 2 consumed "
-        "datums; then seeded random (chains of 2..8 datums shuffled and mutated: gap, overlap, empty/negative interval, "
-        "foreign descriptor/resource, duplicate; random consolidator parameters with 0..4 consumed datums whose seq "
-        "ranges may be shorter/longer/overlapping); malformed stream: None in shape, chunk dims <= 0, negative dims, "
-        "negative multiplier, negative intervals, missing template, empty docs. Non-trivial = accepted concatenation of "
-        ">=2 datums given out of order / chunks Ok with >=2 dims after >=1 consumed row.")
+RULE = ("corpus; exhaustive: all datum lists of <=3 intervals over coordinates 0..3 (quick: len-3 lists over the 6 non-empty "
+        "intervals + 2 degenerate ones) + descriptor/resource patterns on all permutations of chains and near-chains; "
+        "class kinds x join_method override x join_chunks override x chunk_shape lengths 0..3 x multiplier {none,(1),3} x "
+        "5-6 descriptor shapes with 2 consumed datums; then seeded random (chains of 2..8 datums shuffled and mutated: "
+        "gap, overlap, empty/negative interval, foreign descriptor/resource, duplicate, swapped seq ranges, equal starts; "
+        "random consolidator parameters with 0..4 consumed datums whose seq ranges may be shorter/longer/overlapping); "
+        "malformed stream: None in shape, chunk dims <= 0, negative dims, negative multiplier, negative intervals, "
+        "missing template, unknown mimetype, empty docs. Non-trivial = accepted concatenation of >=2 datums given out of "
+        "order / chunks Ok with >=2 dims after >=1 consumed row.")
 
 ERRS = ("ValueError", "IndexError", "AssertionError", "NotImplementedError", "KeyError")
 MIMES = {
@@ -66,39 +68,43 @@ def _cons(cls, shape, mult=None, chunk=None, join=None, jchunks=None, template=T
 
 def _concat_exhaustive(tier):
     out = []
+    quick = tier == "quick"
     ivs = [(a, b) for a in range(4) for b in range(4)]
-    ivs_le = [(a, b) for (a, b) in ivs if a <= b]
+    ivs_q = [(a, b) for (a, b) in ivs if a < b] + [(1, 1), (2, 1)]
     out.append(_cat([]))
     for n in (1, 2, 3):
-        pool = ivs if (n < 3 or tier != "quick") else ivs_le
+        pool = ivs_q if (n == 3 and quick) else ivs
         for combo in itertools.product(pool, repeat=n):
             out.append(_cat([_mk(i, a, b) for i, (a, b) in enumerate(combo)]))
     # descriptor / resource patterns on permuted chains (and near-chains)
     bases = [[(0, 1), (1, 2)], [(0, 2), (2, 3)], [(0, 1), (1, 2), (2, 3)], [(0, 1), (1, 3), (3, 4)], [(0, 1), (2, 3)]]
     for base in bases:
         n = len(base)
+        pats = list(itertools.product((0, 1), repeat=n))
+        if quick and n == 3:
+            pats = [(0, 0, 0), (1, 0, 0), (0, 1, 0), (0, 0, 1)]
         for perm in itertools.permutations(range(n)):
-            for dp in itertools.product((0, 1), repeat=n):
-                for rp in itertools.product((0, 1), repeat=n):
+            for dp in pats:
+                for rp in pats:
                     out.append(_cat([_mk(i, base[j][0], base[j][1], dp[i], rp[i]) for i, j in enumerate(perm)]))
     return out
 
 
 def _cons_exhaustive(tier):
     out = []
-    shapes = [[], [1], [3], [1, 4], [6, 4], [2, 3, 4]]
-    chunks = [None, [], [2], [2, 3], [1, 2, 2], [4]]
+    quick = tier == "quick"
+    shapes = [[], [1], [3], [1, 4], [6, 4]] + ([] if quick else [[2, 3, 4]])
+    chunks = [None, [2], [2, 3], [1, 2, 2]] + ([] if quick else [[], [4]])
+    mults = (None, 3) if quick else (None, 1, 3)
     docs = [[0, 2, 1, 3], [2, 5, 3, 6]]
-    kinds = ["base", "csv", "hdf5", "tiff", "jpeg", "npy"]
-    if tier == "quick":
-        kinds = ["base", "csv", "hdf5", "tiff", "npy"]
+    kinds = ["base", "csv", "hdf5", "tiff", "npy"] + ([] if quick else ["jpeg"])
     for cls in kinds:
         for join in (None, "stack", "concat"):
             for jc in (None, True, False):
                 for ch in chunks:
                     if cls == "npy" and ch not in (None, [2]):
                         continue  # user chunk_shape is overwritten by NPY: two values suffice
-                    for mult in (None, 1, 3):
+                    for mult in mults:
                         for sh in shapes:
                             out.append(_cons(cls, sh, mult, ch, join, jc, True, docs))
     for sh in shapes:
@@ -220,7 +226,7 @@ def cases(rng, tier):
     out = []
     out += _concat_exhaustive(tier)
     out += _cons_exhaustive(tier)
-    nrand = 400 if tier == "quick" else 12000
+    nrand = 400 if tier == "quick" else 10000
     for _ in range(nrand):
         out.append(_rand_concat(rng))
     for _ in range(nrand):
@@ -483,8 +489,8 @@ def _oracle_cons(case, obs):
         else:
             if len(ch) != len(shape) or [sum(c) for c in ch] != shape:
                 fails.append(("chunks", "after %d datums chunks %s do not add up to shape %s" % (k, ch, shape)))
-            elif any(x < 0 for c in ch for x in c) or any(len(c) == 0 for c in ch):
-                fails.append(("chunks", "after %d datums chunks %s contain a negative/empty entry" % (k, ch)))
+            elif any(not (c == [0] or (len(c) > 0 and all(x > 0 for x in c))) for c in ch):
+                fails.append(("chunks", "after %d datums chunks %s: a dimension is neither (0,) nor positive sizes" % (k, ch)))
     # every consumed seq_num maps to its row (later datums overwrite earlier ones)
     want = {}
     for a, b, s, t in case["docs"]:
@@ -501,6 +507,8 @@ def _fails(case, obs):
 
 def oracle(case, obs):
     f = _fails(case, obs)
+    # report a failure that is not the (possibly known) chunks-raises one first
+    f = [x for x in f if x[0] != "chunks-error"] + [x for x in f if x[0] == "chunks-error"]
     return f[0][1] if f else None
 
 
